@@ -31,8 +31,8 @@ ASSUMPTIONS = [
     'a rule left with comments only is not asserted either way (is it "empty"?)',
     'resolveVariables is exercised on hand-written variable sheets (the generator has no @variables)',
 ]
-MIN_EVENTS = {'quick': {'oracle.model': 8000, 'oracle.layout-tokens': 2500, 'oracle.restore': 700, 'prefs.covered': 24},
-              'thorough': {'oracle.model': 200000, 'oracle.layout-tokens': 60000, 'oracle.restore': 15000, 'prefs.covered': 24}}
+MIN_EVENTS = {'quick': {'oracle.model': 5500, 'oracle.layout-tokens': 1800, 'oracle.restore': 700, 'prefs.covered': 22},
+              'thorough': {'oracle.model': 120000, 'oracle.layout-tokens': 40000, 'oracle.restore': 15000, 'prefs.covered': 22}}
 
 CONTENT = {
     'keepComments': [False], 'keepEmptyRules': [True], 'keepUnknownAtRules': [False], 'keepUsedNamespaceRulesOnly': [True],
